@@ -66,38 +66,51 @@ def comp(name):
 
 @comp('LAOStar')
 def _():
-    r = LAOStar(heuristic=lambda s: 0., seed=3).plan_on(mdp())
-    return dict(v=r.state_value_map, init=r.initial_value, pol={s: dict(r.policy.action_dist(s).items()) for s in S})
+    res = {}
+    for sd in (0, 3):      # 0 is a fixed seed like any other
+        r = LAOStar(heuristic=lambda s: 0., seed=sd, randomize_action_order=True).plan_on(mdp())
+        res[sd] = dict(v=r.state_value_map, init=r.initial_value, pol={s: dict(r.policy.action_dist(s).items()) for s in S})
+    return res
 
 
 @comp('LRTDP')
 def _():
-    r = LRTDP(heuristic=lambda s: 0., seed=3, randomize_action_order=True, iterations=3).plan_on(mdp())
-    return dict(V=dict(r.V), init=r.initial_value)
+    res = {}
+    for sd in (0, 3):
+        r = LRTDP(heuristic=lambda s: 0., seed=sd, randomize_action_order=True, iterations=3).plan_on(mdp())
+        res[sd] = dict(V=dict(r.V), init=r.initial_value)
+    return res
 
 
 @comp('AStar')
 def _():
     det = QuickTabularMDP(next_state=lambda s, a: {'left': {'s0': 's1', 's1': 'goal', 's2': 'goal', 'goal': 'goal'}, 'right': {'s0': 's2', 's1': 's2', 's2': 's2', 'goal': 'goal'}}[a][s],
                           reward=-1, actions=A, initial_state='s0', is_absorbing=lambda s: s == 'goal')
-    r = AStarSearch(seed=5, randomize_action_order=True, tie_breaking_strategy='random').plan_on(det)
-    b = BreadthFirstSearch(seed=5, randomize_action_order=True).plan_on(det)
-    return dict(path=r.path, value=r.path_value, visited=r.visited, bfs=b.path)
+    res = {}
+    for sd in (0, 5):
+        r = AStarSearch(seed=sd, randomize_action_order=True, tie_breaking_strategy='random').plan_on(det)
+        b = BreadthFirstSearch(seed=sd, randomize_action_order=True).plan_on(det)
+        res[sd] = dict(path=r.path, value=r.path_value, visited=r.visited, bfs=b.path)
+    return res
 
 
 @comp('TD')
 def _():
     res = {}
     for cls in (QLearning, SARSA, ExpectedSARSA, DoubleQLearning):
-        r = cls(episodes=6, seed=7, rand_choose=.3, softmax_temp=.5).train_on(mdp())
-        res[cls.__name__] = {s: dict(av) for s, av in r.q_values.items()}
+        for sd in (0, 7):
+            r = cls(episodes=6, seed=sd, rand_choose=.3, softmax_temp=.5).train_on(mdp())
+            res['%s/%d' % (cls.__name__, sd)] = {s: dict(av) for s, av in r.q_values.items()}
     return res
 
 
 @comp('RMAX')
 def _():
-    r = RMAX(episodes=4, rmax=0., num_transition_samples=2, seed=7).train_on(mdp(g=.9))
-    return {s: dict(av) for s, av in r.q_values.items()}
+    res = {}
+    for sd in (0, 7):
+        r = RMAX(episodes=4, rmax=0., num_transition_samples=2, seed=sd).train_on(mdp(g=.9))
+        res[sd] = {s: dict(av) for s, av in r.q_values.items()}
+    return res
 
 
 @comp('rollouts')
@@ -127,16 +140,22 @@ def _():
         def is_initial(self, s): return True
         def is_terminal(self, s): return s in self.term
         def __hash__(self): return hash(self.name)
-    sm = SemiMarkovDecisionProcess(mdp=mdp(), options=[Go('to-goal', {'goal'}), Go('to-s2', {'s2', 'goal'})], n_option_simulations=6, seed=17)
-    o = sm.options[0]
-    d = sm.next_state_transit_time_reward_dist('s0', o)
-    return {repr(k): v for k, v in d.items()}
+    res = {}
+    for sd in (0, 17):
+        sm = SemiMarkovDecisionProcess(mdp=mdp(), options=[Go('to-goal', {'goal'}), Go('to-s2', {'s2', 'goal'})], n_option_simulations=6, seed=sd)
+        o = sm.options[0]
+        d = sm.next_state_transit_time_reward_dist('s0', o)
+        res[sd] = {repr(k): v for k, v in d.items()}
+    return res
 
 
 @comp('implicit')
 def _():
-    d = ImplicitDistribution(lambda rng: rng.choice(['x', 'y', 'z']) + str(rng.randint(0, 3)), n_samples=12, _seed=19)
-    return dict(items=dict(d.items()), exp=d.marginalize(lambda e: e[0]).expectation(lambda e: 1. if e == 'x' else 0.))
+    res = {}
+    for sd in (0, 19):
+        d = ImplicitDistribution(lambda rng: rng.choice(['x', 'y', 'z']) + str(rng.randint(0, 3)), n_samples=12, _seed=sd)
+        res[sd] = dict(items=dict(d.items()), exp=d.marginalize(lambda e: e[0]).expectation(lambda e: 1. if e == 'x' else 0.))
+    return res
 
 
 @comp('FSC-learners')
